@@ -25,7 +25,7 @@ ASSUME = ['Linux tmpfs semantics of the POSIX mirror calls are the reference ("t
 
 NONTRIVIAL = ('positional_then_sequential', 'multi_iovec_with_empty', 'offset>=2^32', 'append', 'unstable_seek')
 OFFSETS = st.one_of(st.integers(0, 4096), st.sampled_from([0, 1, 99, (1 << 31) - 1, 1 << 31, (1 << 32) - 1, 1 << 32, (1 << 32) + 5,
-                                                          1 << 33]))
+                                                          1 << 33, 1 << 40, (1 << 63) - 1]))      # offsets >= 2^63 have no POSIX counterpart (off_t is signed)
 BUFS = st.lists(st.binary(min_size=0, max_size=48), min_size=0, max_size=6)
 LENS = st.lists(st.sampled_from([0, 1, 2, 7, 16, 100]), min_size=0, max_size=6)
 
